@@ -351,7 +351,9 @@ pub fn finish(fin: Finish, acc: &Acc) -> i32 {
     }
     let mut violations = 0usize;
     let mut known_hits = vec![];
-    let replay_dir = format!("{}/replays/{}", VERIF_DIR, fin.property);
+    // the second build of the same binary (IndexMap-backed maps) keeps its files apart
+    let variant = if cfg!(feature = "po") { ".po" } else { "" };
+    let replay_dir = format!("{}/replays/{}{}", VERIF_DIR, fin.property, variant);
     // replays of earlier runs of this property are stale now
     let _ = std::fs::remove_dir_all(&replay_dir);
     let mut lines_printed = 0usize;
@@ -476,11 +478,12 @@ pub fn finish(fin: Finish, acc: &Acc) -> i32 {
         "violations": violations,
     });
     let _ = std::fs::create_dir_all(format!("{}/evidence", VERIF_DIR));
-    let path = format!("{}/evidence/{}.json", VERIF_DIR, fin.property);
+    let path = format!("{}/evidence/{}{}.json", VERIF_DIR, fin.property, variant);
     std::fs::write(&path, serde_json::to_string_pretty(&ev).unwrap() + "\n").unwrap();
     eprintln!(
-        "[{}] tier={} evaluations={} distinct_nontrivial={} outcomes={} violations={} wall={:.1}s",
+        "[{}{}] tier={} evaluations={} distinct_nontrivial={} outcomes={} violations={} wall={:.1}s",
         fin.property,
+        if variant.is_empty() { "" } else { " preserve_order build" },
         fin.tier.name(),
         evaluations,
         nontrivial,
